@@ -56,7 +56,7 @@ CHECKS = {
          "643 programs: every pair of view kinds on one component in each position (views/views, views/entry views, entry/entry; the former two, parallel views and System views also with an entity identifier view written first / last / in the middle), sub-views of entry views, resource view pairs, repeated entry queries (World::entry, Entries::entry, two entries), types outside the registry, 11 thread-crossing APIs x 3 payload kinds; each rejecting case has a conflict-free control that must compile (else tool error). The compiler is the implementation; TLC contributes the enumeration, the aliasing / Send / Sync oracle and the comparison. Three accepted programs (two usable results of Entries entry queries) are recorded in known_findings.json.",
          "Programs outside the family are not covered; rustc trusted.", "6 C14 and 10"),
  "C18": ("exploration", "exhaustive enumeration of the stated space, outcomes validated by TLC against Precond.tla (enabledness of Construct / BatchNew) with a completeness check of the enumeration",
-         "All 120 registries of length 2..9 with one repeated type x {new, with_resources, default, Deserialize human-readable, Deserialize compact} must panic, 10 duplicate-free controls must return; all 340 column-length vectors over {0,1,2,3} for 1..4 columns: Batch::new panics iff lengths differ, and an accepted batch stores exactly that many rows. TLC checks every outcome and that the whole space was enumerated.",
+         "All 120 registries of length 2..9 with one repeated type x {new, with_resources, default, Deserialize human-readable, Deserialize compact} must panic, 10 duplicate-free controls must return; all 340 column-length vectors over {0,1,2,3} for 1..4 columns: Batch::new panics iff lengths differ, and an accepted batch stores exactly that many rows. TLC checks every outcome and that the whole space was enumerated. A batch written as entities!((..); n) with a side-effecting n must still get columns of one length (the count evaluated per column was a defect of the pinned tree, fixed).",
          "Bounded exactly as the property states.", "6 C18"),
 }
 
